@@ -322,6 +322,78 @@ def region_misc_targets():
 
 TARGETS += region_misc_targets()
 
+def region_validate_targets():
+    R = "pixman/pixman-region32.c"
+    base = dict(kind="step", file=R, func="validate", mode="mixed", cursors=["box", "ri_box"],
+                mem={"reg->extents.x1": ("reg_ext_x1", "int32_t"), "reg->extents.x2": ("reg_ext_x2", "int32_t")})
+    return [
+        dict(base, name="region32_validate_same_band", cond_of_if=9, expect=["box", "ri_box", "y1", "y2"]),
+        dict(base, name="region32_validate_merge", cond_of_if=10, expect=["box", "ri_box", "x1", "x2"]),
+        dict(base, name="region32_validate_extend", cond_of_if=11, expect=["box", "ri_box", "x2"]),
+        dict(base, name="region32_validate_new_band", cond_of_if=14, expect=["box", "ri_box", "y1", "y2"]),
+        dict(base, name="region32_validate_ext_x2", cond_of_if=15, expect=["reg", "extents", "ri_box", "x2"]),
+        dict(base, name="region32_validate_ext_x1", cond_of_if=16, expect=["reg", "extents", "box", "x1"]),
+    ]
+
+
+TARGETS += region_validate_targets()
+
+def region_shortcut_targets():
+    R = "pixman/pixman-region32.c"
+
+    def regmem(*names):
+        m = {}
+        for n in names:
+            m[f"{n}->data"] = (f"{n}_data", "ptr")
+            m[f"{n}->data->numRects"] = (f"{n}_numRects", "long")
+            for f in ("x1", "y1", "x2", "y2"):
+                m[f"(&{n}->extents)->{f}"] = (f"{n}_{f}", "int32_t")
+        return m
+    out = []
+    for fn, regs, ptrs, conds in (
+            ("pixman_region32_intersect", ("reg1", "reg2"), ["reg1", "reg2"],
+             [(0, "nil_or_apart", ["numRects", "x2"]), (2, "nar", ["pixman_broken_data"]), (3, "both_single", ["reg1", "reg2"]),
+              (5, "reg2_covers", ["reg2", "x1"]), (6, "reg1_covers", ["reg1", "x1"]), (7, "same", ["reg1", "reg2"])]),
+            ("pixman_region32_union", ("reg1", "reg2"), ["reg1", "reg2", "new_reg"],
+             [(3, "copy_reg2", ["new_reg", "reg2"]), (6, "copy_reg1", ["new_reg", "reg1"]),
+              (8, "copy_covering_reg1", ["new_reg", "reg1"]), (10, "copy_covering_reg2", ["new_reg", "reg2"]),
+              (0, "same", ["reg1", "reg2"]), (1, "reg1_nil", ["reg1", "numRects"]), (2, "reg1_nar", ["reg1", "pixman_broken_data"]),
+              (4, "reg2_nil", ["reg2", "numRects"]), (5, "reg2_nar", ["reg2", "pixman_broken_data"]),
+              (7, "reg1_covers", ["reg1", "x1"]), (9, "reg2_covers", ["reg2", "x1"])]),
+            ("pixman_region32_subtract", ("reg_m", "reg_s"), ["reg_m", "reg_s"],
+             [(0, "nil_or_apart", ["numRects", "x2"]), (1, "nar", ["reg_s", "pixman_broken_data"]), (2, "same", ["reg_m", "reg_s"])])):
+        short = fn.replace("pixman_region32_", "")
+        for k, nm, exp in conds:
+            out.append(dict(kind="step", file=R, func=fn, name=f"region32_{short}_{nm}", cond_of_if=k, mode="mixed",
+                            mem=regmem(*regs), ptrvals=ptrs, ptrglobals=["pixman_broken_data"], expect=exp))
+    return out
+
+
+TARGETS += region_shortcut_targets()
+
+def region_sweep_targets():
+    R = "pixman/pixman-region32.c"
+    out = []
+    for k, b, nm in ((1, "r1", "r1"), (2, "r2", "r2"), (3, "r1", "tail_r1"), (4, "r2", "tail_r2")):
+        out.append(dict(kind="step", file=R, func="pixman_op", name=f"region32_find_band_{nm}_step", loop=k, mode="mixed",
+                        cursors=[f"{b}_band_end"], ptrlocals=[f"{b}_end"], expect=[f"{b}_band_end", f"{b}_end", f"{b}y1"]))
+    for k, nm, exp in ((3, "keeps_old_data", ["new_reg", "new_size", "numRects"]), (11, "r1_above", ["r1y1", "r2y1"]),
+                       (16, "r2_above", ["r1y1", "r2y1"]), (13, "non_o_nonempty", ["top", "bot"]),
+                       (15, "coalesce_wanted", ["cur_band", "prev_band"]), (21, "overlap_nonempty", ["ybot", "ytop"]),
+                       (24, "r1_done", ["r1", "ybot"]), (25, "r2_done", ["r2", "ybot"]),
+                       (26, "r1_tail", ["r1", "append_non1"]), (32, "r2_tail", ["r2", "append_non2"])):
+        out.append(dict(kind="step", file=R, func="pixman_op", name=f"region32_op_{nm}", cond_of_if=k, mode="mixed",
+                        cursors=["r1", "r2"], ptrvals=["new_reg", "reg1", "reg2"], ptrlocals=["r1_end", "r2_end"],
+                        mem={"new_reg->data->numRects": ("new_numRects", "long")}, expect=exp))
+    out.append(dict(kind="step", file=R, func="pixman_region32_contains_rectangle", name="region32_contains_rectangle_step",
+                    loop=0, body_from=1, mode="mixed", cursors=["pbox"], ptrlocals=["pbox_end"],
+                    mem={"prect->x1": ("prect_x1", "int32_t"), "prect->x2": ("prect_x2", "int32_t"),
+                         "prect->y2": ("prect_y2", "int32_t")}, expect=["pbox", "part_in", "part_out"]))
+    return out
+
+
+TARGETS += region_sweep_targets()
+
 LEAN_KEYWORDS = {"at", "from", "end", "open", "show", "have", "fun", "let", "then", "do", "in", "if", "else", "by",
                  "at", "with", "match", "where", "for", "def", "theorem", "instance", "structure", "class", "namespace",
                  "section", "import", "mut", "return", "repeat", "calc", "using", "from", "Type", "Prop", "Sort",
@@ -568,6 +640,10 @@ class Env:
         self.structs = {}
         for m in re.finditer(r"\b(?:struct|union)\s+(\w+)\s*\{([^{}]*)\}", text):
             self.structs.setdefault(m.group(1), m.group(2))
+        for m in re.finditer(r"\btypedef\s+(?:struct|union)\s*(\w*)\s*\{([^{}]*)\}\s*(\w+)\s*;", text):
+            tag = m.group(1) or ("__anon_" + m.group(3))
+            self.structs.setdefault(tag, m.group(2))
+            self.typedefs.setdefault(m.group(3), "struct " + tag)
         self.fields2_cache = {}
 
     def enum_values(self, body):
@@ -697,6 +773,11 @@ class Env:
             if f[ast[2]] is None:
                 return (("unknown",), 0, 0)
             return f[ast[2]]
+        if k == "addr":
+            t, np, nd = self.path_type(ast[1], roots)
+            if nd:
+                fail("memory operand: address of an array")
+            return (t, np + 1, 0)
         if k == "deref":
             inner = ast[1]
             if inner[0] == "bin" and inner[1] == "+":
@@ -835,7 +916,9 @@ class Parser:
             self.eat("op", "(")
             t = self.try_type()
             if t is None:
-                fail("sizeof of an expression is not supported")
+                e = self.expr()         # parsed only; translating it fails closed
+                self.eat("op", ")")
+                return ("sizeof_expr", e)
             self.eat("op", ")")
             return ("sizeof", t)
         if k == "op" and v == "(":
@@ -881,8 +964,9 @@ class Parser:
                         args.append(self.assign())
                 self.eat("op", ")")
                 if e[0] != "id":
-                    fail("call through an expression")
-                e = ("call", e[1], args)
+                    e = ("call", "<indirect>", [e] + args)      # parsed only; never translated
+                else:
+                    e = ("call", e[1], args)
             elif k == "op" and v in ("++", "--"):
                 self.eat()
                 e = ("postinc", v[0], e)
@@ -977,6 +1061,20 @@ class Parser:
             self.eat()
             self.eat("op", ";")
             return ("continue",)
+        if k == "id" and v == "typedef":
+            # a local typedef: already known to Env (which scans the whole text); skip it
+            d = 0
+            while True:
+                kk, vv = self.peek()
+                if kk == "eof":
+                    fail("unterminated typedef")
+                self.eat()
+                if (kk, vv) == ("op", "{"):
+                    d += 1
+                elif (kk, vv) == ("op", "}"):
+                    d -= 1
+                elif (kk, vv) == ("op", ";") and d == 0:
+                    return ("block", [])
         if k == "id" and v == "goto":
             self.eat()
             lab = self.eat("id")
@@ -1021,7 +1119,12 @@ class Parser:
                 else:
                     nm = self.eat("id")
                 if self.at("op", "["):
-                    fail(f"array declaration of {nm}")
+                    # array local: only its existence is recorded (using it in a translated piece fails closed)
+                    while self.at("op", "["):
+                        self.eat()
+                        self.expr()
+                        self.eat("op", "]")
+                    np = 99
                 init = None
                 if self.at("op", "="):
                     self.eat()
@@ -2780,6 +2883,11 @@ def parse_params(ptext, env):
         p = Parser(lex(part), env)
         t = p.try_type()
         if t is None:
+            toks = p.t
+            if len(toks) == 2 and toks[0][0] == "id" and toks[1][0] == "id" and toks[0][1].endswith("_ptr"):
+                # a function-pointer typedef: an opaque pointer, never dereferenced by the translator
+                out.append((toks[1][1], "void", 1))
+                continue
             fail(f"parameter not understood: {part!r}")
         nm = p.eat("id")
         if p.i != len(p.t):
@@ -3530,7 +3638,15 @@ def translate_step(env, tgt, funcs):
             pre, cv = low.cond(lp[2])
             stepst = low.stmt(("expr", lp[3])) if lp[3] is not None else []
             cont_stmts.extend(stepst)
-            stmts = pre + [("if", ("un", "!", cv), ("return", EXIT), None)] + low.stmt(fixret(lp[4])) + stepst + [("return", CONT)]
+            if "body_from" in tgt:
+                # only the statements of the body from this index on (and the step expression): status 0 = break
+                bstm = lp[4][1][tgt["body_from"]:] if lp[4][0] == "block" else fail(f"{name}: loop body is not a block")
+                stmts = []
+                for x in bstm:
+                    stmts += low.stmt(fixret(x))
+                stmts += stepst + [("return", CONT)]
+            else:
+                stmts = pre + [("if", ("un", "!", cv), ("return", EXIT), None)] + low.stmt(fixret(lp[4])) + stepst + [("return", CONT)]
     # ---- variables
     tr_tgt = dict(tgt, func=name)
     types = {}
@@ -3553,6 +3669,8 @@ def translate_step(env, tgt, funcs):
         roots0[d[2]] = d[1]
     for c in tgt.get("cursors", ()):
         types[c] = ULONG                # element index
+    for g in tgt.get("ptrglobals", ()):
+        types[g] = ULONG                # address of a global object, compared with pointers only
     for v, (c, ver, f) in low.cursor_vars.items():
         t = env.path_type(("field", ("id", c), f), roots0)
         if t[1] or t[2] or not isinstance(t[0], CT):
